@@ -6,6 +6,7 @@ import (
 	"fmt"
 	"go/constant"
 	"go/token"
+	"os"
 	"strings"
 
 	"golang.org/x/tools/go/ssa"
@@ -189,6 +190,53 @@ func runC04(cx *CheckCtx) {
 		}
 	}
 	// ---- delete path
+	// list / containersOf: the owner's ids for a non-empty owner, all ids for an empty one
+	if m := cx.method("container", "ContainersOf"); m != nil {
+		a := cx.run(m)
+		tb := a.tb
+		owner := paramTerm(tb, m, "owner")
+		ok := len(a.Exits()) > 0
+		for _, ex := range a.Exits() {
+			if len(ex.Results) != 1 || ex.Results[0].Op != "find" {
+				ok = false
+				continue
+			}
+			k := ex.Results[0].Args[0]
+			empty := a.litEqC(a.litLen(owner), 0)
+			all, own := tb.constBytes("o"), tb.cat(tb.constBytes("o"), owner)
+			if !(k == own || (a.holdsAt(ex.State, empty, a.eqLit(k, own)) && a.holdsAt(ex.State, -empty, a.eqLit(k, all)))) {
+				ok = false
+			}
+		}
+		cx.decide(ok, "getter-key", "container.ContainersOf", "scans 'o'‖owner for a non-empty owner and 'o' for an empty one", "containersOf(owner) does not enumerate exactly that owner's ids (all ids for an empty owner)", w.pos(m.Fn.Pos()))
+	}
+	if m := cx.method("container", "List"); m != nil {
+		a := cx.run(m)
+		tb := a.tb
+		owner := paramTerm(tb, m, "owner")
+		empty := a.litEqC(a.litLen(owner), 0)
+		ok := len(a.Exits()) > 0
+		for _, ex := range a.Exits() {
+			// the scan the result was collected from: the exhausted iterator of the exit
+			var pre *Term
+			for _, f := range a.unitFacts(ex.State) {
+				if f.kind == KB && !f.pos && f.A.Op == "iternext" && f.A.Args[0].Op == "find" {
+					pre = f.A.Args[0].Args[0]
+				}
+			}
+			switch {
+			case pre == nil:
+				ok = false
+			case pre == tb.cat(tb.constBytes("o"), owner):
+				ok = ok && a.holdsAt(ex.State, -empty)
+			case keyFamily(pre) == "x" || pre == tb.constBytes("o"):
+				ok = ok && a.holdsAt(ex.State, empty)
+			default:
+				ok = false
+			}
+		}
+		cx.decide(ok, "getter-key", "container.List", "collects the scan of 'o'‖owner for a non-empty owner and of all containers for an empty one", "list(owner) does not return exactly that owner's ids (all ids for an empty owner)", w.pos(m.Fn.Pos()))
+	}
 	if m := cx.method("container", "Delete"); m != nil {
 		a := cx.run(m)
 		tb := a.tb
@@ -274,6 +322,24 @@ func runC04(cx *CheckCtx) {
 			args := notifyArgs(notif)
 			cx.decide(len(args) >= 1 && args[0] == cid, "notify", "container.Delete/DeleteSuccess/arg", "names the container id", "DeleteSuccess names "+termList(args), notif.Where(w))
 			checkNotifyEquiv(cx, a, "container.Delete/DeleteSuccess", notif, tomb)
+			// a live container is removed, and only a live one: the removal happens exactly when the
+			// owner lookup of the id found an owner
+			okLive, whyLive := false, "Delete does not branch on the owner lookup of the id"
+			for _, ls := range a.Sites(func(s *Site) bool {
+				return s.Inlined && s.Ctx.parent == nil && len(s.Args) == 2 && s.Args[1] == cid && s.Val != nil
+			}) {
+				t := ls.Val
+				okLive, whyLive = true, ""
+				if !a.holdsAt(tomb.In, -a.litNil(t)) {
+					okLive, whyLive = false, "the removal runs for an id whose owner lookup found nothing"
+				}
+				for _, ex := range a.Exits() {
+					if !a.holdsAt(ex.State, a.eLit(tomb), a.litNil(t)) {
+						okLive, whyLive = false, "Delete can return normally for a live container without removing it"
+					}
+				}
+			}
+			cx.decide(okLive, "tombstone", "container.Delete/live", "the removal happens exactly when the owner lookup of the id found an owner", whyLive, tomb.Where(w))
 		}
 		// the silent early return has no effect: covered by C03 (all effects gated) — here: missing container ⇒ no effect
 	}
@@ -609,6 +675,89 @@ func runC14(cx *CheckCtx) {
 						okScan = true
 					}
 				}
+			}
+			// … and the start value is the decoded last key exactly when the scan found one, 0 exactly
+			// when it found none; each stored key uses the counter advanced by one per item
+			if okScan {
+				okStart, whyStart := false, "the counter written into the key is not (start value + number of items so far)"
+				for _, cs := range a.Sites(func(s *Site) bool {
+					return s.Inlined && s.Ctx.parent == nil && len(s.Args) == 1 && s.Val != nil && len(ps) >= 4 && s.Val == ps[3]
+				}) {
+					cnt := cs.Args[0] // the counter handed to the encoder
+					var loopPhi *Term
+					if cnt.Op == "sum" {
+						for _, x := range cnt.Args {
+							if x.Op == "phi" {
+								loopPhi = x
+							}
+						}
+					}
+					if loopPhi == nil || cnt != tb.binop(token.ADD, loopPhi, tb.constInt(1), intType) {
+						continue
+					}
+					stepOK := false
+					var inits []*Term
+					for _, al := range tb.Alts(loopPhi) {
+						if al == cnt {
+							stepOK = true
+						} else {
+							inits = append(inits, al)
+						}
+					}
+					if !stepOK || len(inits) == 0 {
+						continue
+					}
+					// the start values: 0 and the decoded key of the last item of the backwards scan
+					var nx, dec *Term
+					okInits := true
+					for _, al := range inits {
+						if n, isC := al.IntConst(); isC && n == 0 {
+							continue
+						}
+						isDec := false
+						al.walk(func(x *Term) bool {
+							if x.Op == "iterval" && x.Args[0].Op == "find" && x.Args[0].Args[0] == pre {
+								isDec = true
+							}
+							return true
+						})
+						if isDec && (dec == nil || dec == al) {
+							dec = al
+						} else {
+							okInits = false
+						}
+					}
+					// the variable that carries the start value: the phi bound to the decoded key
+					var start *Term
+					for id := int32(1); id < int32(len(a.lt.lits)); id++ {
+						l := a.lt.lits[id]
+						if l.Kind == KB && l.A.Op == "iternext" && l.A.Args[0].Op == "find" && l.A.Args[0].Args[0] == pre {
+							nx = l.A
+						}
+						if l.Kind == KEq && dec != nil {
+							if l.A == dec && l.B.Op == "phi" {
+								start = l.B
+							}
+							if l.B == dec && l.A.Op == "phi" {
+								start = l.A
+							}
+						}
+					}
+					if !okInits || nx == nil || dec == nil || start == nil {
+						whyStart = "the start value is not (0 | the decoded last key of the backwards scan)"
+						continue
+					}
+					found := a.litB(nx)
+					if os.Getenv("DBGROSTER") != "" {
+						fmt.Println("ROSTER start=", start, "dec=", dec, "nx=", nx, "q1=", a.holdsAt(put.In, found, a.litEqC(start, 0)), "q2=", a.holdsAt(put.In, -found, a.eqLit(start, dec)))
+					}
+					if a.holdsAt(put.In, found, a.litEqC(start, 0)) && a.holdsAt(put.In, -found, a.eqLit(start, dec)) {
+						okStart, whyStart = true, ""
+					} else {
+						whyStart = "the start value is 0 although the scan found a pending key (or the decoded key although it found none)"
+					}
+				}
+				cx.decide(okStart, "roster-schema", "container.AddNextEpochNodes/start", "start = decode(last pending key) when there is one, 0 otherwise; +1 per stored item", "a second batch does not continue after the first: "+whyStart+" — pending entries are overwritten or the order of submission is lost", put.Where(w))
 			}
 			cx.decide(okScan, "roster-schema", "container.AddNextEpochNodes/continue", "the counter continues from a backwards scan of the same (cid, vector)", "the roster counter is not continued from the last pending key of the same (cid, vector): a second batch overwrites the first", put.Where(w))
 			el := put.Args[2]
